@@ -671,9 +671,8 @@ def to_ovld(x):
     """Return whether the argument is an ovld function/method."""
     x = getattr(x, "__ovld__", x)
     if inspect.isfunction(x):
-        return ovld(x, fresh=True)
-    else:
-        return x if isinstance(x, Ovld) else None
+        x = getattr(ovld(x, fresh=True), "__ovld__", None)
+    return x if isinstance(x, Ovld) else None
 
 
 def extend_super(fn):
